@@ -5,6 +5,7 @@ import CoapVerif.Lemmas.Conserve
 import CoapVerif.Lemmas.PduFixed
 import CoapVerif.Lemmas.MsgHold
 import CoapVerif.Lemmas.MsgLayerW
+import CoapVerif.Lemmas.MsgLayerWRefuse
 import CoapVerif.Lemmas.ObserveWait
 /-
 C06 — the retransmission queue: every pending message is (re)transmitted on the RFC 7252 §4.2 schedule and
@@ -1308,6 +1309,136 @@ theorem w_drain_break_strands_witness :
     let lw := runW (initW 0 [{}] [true]) [.hold 0, .submit 0 false 101 0, .submit 0 true 102 0, .connect 0, .prepare]
     lw.dev = true ∧ (lw.l.getS 0).est = true ∧ (lw.l.getS 0).conActive = 0 ∧
     (lw.l.getS 0).delayq.map (·.mid) = [102] ∧ lw.l.q.nodes = [] ∧ lw.l.out.head? = some (.wait 0 0) := by decide
+
+/-! ### (10') the branch the `_partial` theorems above exclude: `coap_send` refuses a message whose first write fails
+
+`dev` is set in two places.  (i) `coap_send_internal`: `bytes_written < 0` → `goto error` — covered HERE by full theorems: the
+caller is told (COAP_INVALID_MID), nothing is queued, and the whole later run is the run without that call.  (ii) the `break`
+in the drain loop of `coap_session_connected` — the open finding `drain_break_strands_delayed` (`w_drain_break_strands_witness`),
+where the property itself fails; that is why `w_run_tracks_m_partial` & co. keep their suffix. -/
+open Coap.Msg Coap.MsgW in
+/-- **w_send_refused_nothing_queued** (every state, every oracle): a `coap_send` that reaches the socket (socket open, the
+gate of `coap_send_pdu` lets it through) and whose write FAILS returns COAP_INVALID_MID to the caller (`.sub none`), leaves the
+attempt on record (marked failed) — and changes nothing else: the send queue, every session record (`con_active`, delay
+queues) and the clock are what they were.  Nothing is queued, no NSTART slot is taken. -/
+theorem w_send_refused_nothing_queued (lw : LW) (s : Nat) (con : Bool) (mid r : Nat)
+    (hopen : (lw.l.getS s).sockOpen = true) (hgate : gate (lw.l.getS s) con = false)
+    (hfail : lw.wf.headD false = true) :
+    let lw' := submitW lw s con mid r
+    lw'.l.out = .sub none :: .tx lw.l.now s mid 0 con :: lw.l.out ∧
+    lw'.l.q = lw.l.q ∧ lw'.l.sess = lw.l.sess ∧ lw'.l.now = lw.l.now ∧
+    lw'.dev = true ∧ lw'.wf = lw.wf.tail ∧ lw'.failed = lw.l.out.length :: lw.failed := by
+  intro lw'
+  have h := submitW_refused lw s con mid r hopen hgate hfail
+  simp only [lw', h]
+  trivial
+
+open Coap.Msg Coap.MsgW in
+/-- **w_refused_send_leaves_no_trace** (every state, every oracle, EVERY later event list): after a refused `coap_send` the
+whole later run — retransmissions, arrivals, give-ups, further sends, further write failures — is, event for event, the run
+that happens WITHOUT that call (the oracle one answer further): same clock, same send queue with the same deadlines and
+counters, same sessions, same remaining oracle, and the same NEW outputs in the same order on top of the two outputs of the
+refused call.  So the refused message gets no NACK and is never transmitted later: nothing that happens later depends on the
+call having been made. -/
+theorem w_refused_send_leaves_no_trace (lw : LW) (s : Nat) (con : Bool) (mid r : Nat) (evs : List Ev)
+    (hopen : (lw.l.getS s).sockOpen = true) (hgate : gate (lw.l.getS s) con = false)
+    (hfail : lw.wf.headD false = true) :
+    let a := runW (submitW lw s con mid r) evs
+    let b := runW { lw with wf := lw.wf.tail } evs
+    a.l.now = b.l.now ∧ a.l.q = b.l.q ∧ a.l.sess = b.l.sess ∧ a.wf = b.wf ∧
+    ∃ new, a.l.out = new ++ .sub none :: .tx lw.l.now s mid 0 con :: lw.l.out ∧ b.l.out = new ++ lw.l.out := by
+  intro a b
+  obtain ⟨h1, h2⟩ := runW_after_refused lw s con mid r evs hopen hgate hfail
+  simp only [a, b, h1, h2]
+  exact ⟨rfl, rfl, rfl, rfl, _, rfl, rfl⟩
+
+open Coap.Msg Coap.MsgW in
+/-- **w_run_with_refused_send_is_m_without_it** (complement of `w_run_tracks_m_partial`): a run `evs1`, a `coap_send` that is
+refused because its first write fails, then `evs2` — any event lists, any oracle, any pattern of failing RETRANSMISSION writes
+— with no other first-write failure (`dev = false` for the run without the call): the write-failure model ends in exactly
+the state of the BASE model's run over `evs1 ++ evs2`, the event list WITHOUT the refused `coap_send`; its outputs are the
+base model's with the failed attempt and COAP_INVALID_MID inserted where the call was made.  So every theorem of sections
+(3)–(9) about `evs1 ++ evs2` is a theorem about the run with the refused call. -/
+theorem w_run_with_refused_send_is_m_without_it (lw0 : LW) (evs1 evs2 : List Ev) (s : Nat) (con : Bool) (mid r : Nat)
+    (hopen : ((runW lw0 evs1).l.getS s).sockOpen = true) (hgate : gate ((runW lw0 evs1).l.getS s) con = false)
+    (hfail : (runW lw0 evs1).wf.headD false = true)
+    (hdev : (runW { runW lw0 evs1 with wf := (runW lw0 evs1).wf.tail } evs2).dev = false) :
+    let a := runW lw0 (evs1 ++ .submit s con mid r :: evs2)
+    let m1 := run lw0.l evs1
+    let m := run lw0.l (evs1 ++ evs2)
+    a.l.now = m.now ∧ a.l.q = m.q ∧ a.l.sess = m.sess ∧
+    ∃ new, m.out = new ++ m1.out ∧ a.l.out = new ++ .sub none :: .tx m1.now s mid 0 con :: m1.out := by
+  intro a m1 m
+  have hb := runW_tracks evs2 _ hdev
+  have h1 := runW_tracks evs1 lw0 hb.1
+  have ha : a = runW (submitW (runW lw0 evs1) s con mid r) evs2 := by
+    simp only [a, runW, List.foldl_append, List.foldl_cons, stepW]
+  have hm : m = Msg.run (runW lw0 evs1).l evs2 := by
+    rw [h1.2]
+    simp only [m, Msg.run, List.foldl_append]
+  obtain ⟨e1, e2, e3, _, new, e5, e6⟩ := w_refused_send_leaves_no_trace (runW lw0 evs1) s con mid r evs2 hopen hgate hfail
+  rw [hb.2] at e1 e2 e3 e6
+  rw [ha, hm]
+  refine ⟨e1, e2, e3, new, ?_, ?_⟩
+  · rw [e6, h1.2]
+  · rw [e5, h1.2]
+
+open Coap.Msg Coap.MsgW Coap.Sim Coap.Sched in
+/-- **w_single_outcome_refused** (complement of `w_single_outcome_partial`): in a run over the C06 alphabet with one refused
+`coap_send` (and any failing retransmission writes), conservation holds with the refused call NOT counted as accepted: for
+every (session, mid) — the refused one included — accepted sends of `evs1 ++ evs2` = outcome NACKs + completions + nodes in the
+send queue + nodes in the delay queue.  The refused call adds no NACK, no queued node, no delayed node. -/
+theorem w_single_outcome_refused (now0 : Nat) (sess : List Sess) (wf : List Bool) (evs1 evs2 : List Ev)
+    (s : Nat) (con : Bool) (mid r : Nat)
+    (hs : ∀ se ∈ sess, SessOk se) (hin : RunG (init now0 sess) (evs1 ++ evs2))
+    (hopen : ((runW (initW now0 sess wf) evs1).l.getS s).sockOpen = true)
+    (hgate : gate ((runW (initW now0 sess wf) evs1).l.getS s) con = false)
+    (hfail : (runW (initW now0 sess wf) evs1).wf.headD false = true)
+    (hdev : (runW { runW (initW now0 sess wf) evs1 with wf := (runW (initW now0 sess wf) evs1).wf.tail } evs2).dev = false)
+    (s' mid' : Nat) :
+    let a := runW (initW now0 sess wf) (evs1 ++ .submit s con mid r :: evs2)
+    accC s' mid' (init now0 sess) (evs1 ++ evs2) =
+      nackC s' mid' a.l.out + remC s' mid' (init now0 sess) (evs1 ++ evs2) + pendC s' mid' a.l.q.nodes +
+        midC mid' (a.l.getS s').delayq := by
+  intro a
+  obtain ⟨_, e2, e3, new, e4, e5⟩ :=
+    w_run_with_refused_send_is_m_without_it (initW now0 sess wf) evs1 evs2 s con mid r hopen hgate hfail hdev
+  have hso := m_single_outcome now0 sess (evs1 ++ evs2) hs hin s' mid'
+  simp only [] at e2 e3 e4 e5 hso
+  have hg : a.l.getS s' = (run (init now0 sess) (evs1 ++ evs2)).getS s' := by
+    simp only [L.getS, a]; rw [e3]; rfl
+  have hn : nackC s' mid' a.l.out = nackC s' mid' (run (init now0 sess) (evs1 ++ evs2)).out := by
+    have happ : ∀ (x y : List Out), nackC s' mid' (x ++ y) = nackC s' mid' x + nackC s' mid' y := by
+      intro x y
+      induction x with
+      | nil => simp [nackC]
+      | cons o x ih => simp only [List.cons_append, nackC, ih]; omega
+    simp only [a]
+    rw [e5]
+    show _ = nackC s' mid' (run (initW now0 sess wf).l (evs1 ++ evs2)).out
+    rw [e4, happ, happ]
+    simp [nackC, nackW, obsM]
+  rw [hn, hg]
+  simp only [a]
+  rw [e2]
+  exact hso
+
+open Coap.Msg Coap.MsgW in
+/-- non-vacuity of section (10'): MAX_RETRANSMIT 2; message 1 is sent at 0; at 2000 its retransmission is written; at 2500 a
+`coap_send` of message 7 on session 1 is refused (its write fails); the run goes on: the hypotheses hold, message 7 is nowhere,
+message 1 is retransmitted at 6000 as if nothing had happened -/
+example : let lw0 := initW 0 [{ maxRtx := 2 }, { maxRtx := 2 }] [false, false, true]
+    let evs1 : List Ev := [.submit 0 true 1 0, .setNow 2000, .prepare, .setNow 2500]
+    let evs2 : List Ev := [.setNow 6000, .prepare]
+    ((runW lw0 evs1).l.getS 1).sockOpen = true ∧ gate ((runW lw0 evs1).l.getS 1) true = false ∧
+    (runW lw0 evs1).wf.headD false = true ∧
+    (runW { runW lw0 evs1 with wf := (runW lw0 evs1).wf.tail } evs2).dev = false ∧
+    (runW lw0 (evs1 ++ .submit 1 true 7 0 :: evs2)).dev = true ∧
+    (runW lw0 (evs1 ++ .submit 1 true 7 0 :: evs2)).l.q.nodes.map (·.mid) = [1] ∧
+    (runW lw0 (evs1 ++ .submit 1 true 7 0 :: evs2)).l.out =
+      [.wait 6000 8000, .tx 6000 0 1 2 true, .sub none, .tx 2500 1 7 0 true, .wait 2000 4000, .tx 2000 0 1 1 true,
+       .sub (some 1), .tx 0 0 1 0 true] ∧
+    Coap.Sched.RunG (init 0 [{ maxRtx := 2 }, { maxRtx := 2 }]) (evs1 ++ evs2) := by decide
 
 /-! ## (11) an ACK that carries the message id ends the Confirmable whatever code it carries (round X06, seed C06-11)
 
